@@ -13,7 +13,11 @@ package dastard
 // task (task 0) issues every request kind of the RPC layer (zz_verif_c11req.go) at drawn times:
 // back to back, between blocks, while ProcessSegments is running, immediately after Stop, in the
 // steps around a self-termination and after the source has ended by itself with nothing in
-// between that refreshes the server's "source is active" flag.
+// between that refreshes the server's "source is active" flag. The configuration of a source is part
+// of the request mix (zz_verif_c11cfg.go): the main source is configured through its configuration
+// request with the options the server reads later (LanceroSourceConfig.ShouldAutoRestart, channel
+// numbering, channel count, block length) drawn over their legal ranges, and configuration requests
+// arrive while the source runs, between runs and with contents that are refused.
 //
 // Oracle rules (written from the property statement, not from the code):
 //   C11.returns          every call returns within 20 s of simulated time
@@ -51,7 +55,7 @@ import (
 
 func init() {
 	simrt.Register(&simrt.Check{Name: "C11", Property: "C11", Body: c11Body, Classify: classify, MaxSteps: 120000, Judge: c11Judge,
-		Real: []string{"every exported request method of SourceControl (ConfigureTriggers, ConfigurePulseLengths, ConfigureProjectorsBasis, WriteControl, SetExperimentStateLabel in wait mode, WriteComment, ReadComment, CoupleErrToFB, CoupleFBToErr, Add/DeleteGroupTriggerCoupling, StopTriggerCoupling, ConfigureMixFraction, StoreRawDataBlock, SendAllStatus, Start, Stop)",
+		Real: []string{"every exported request method of SourceControl (ConfigureTriggers, ConfigurePulseLengths, ConfigureProjectorsBasis, WriteControl, SetExperimentStateLabel in wait mode, WriteComment, ReadComment, CoupleErrToFB, CoupleFBToErr, Add/DeleteGroupTriggerCoupling, StopTriggerCoupling, ConfigureMixFraction, StoreRawDataBlock, SendAllStatus, Start, Stop; ConfigureTriangleSource, ConfigureSimPulseSource, ConfigureLanceroSource, ConfigureAbacoSource, ConfigureRoachSource with the sources' Configure methods)",
 			"runLaterIfActive / handlePossibleStoppedSource", "Start / CoreLoop / ProcessSegments / per-channel processors / TriggerBroker", "AnySource handlers (ChangeTriggerState, ConfigurePulseLengths, ConfigureProjectorsBases, WriteControl, writeControlStart, makeDirectory, ArchiveDataBlock and its writer goroutine)",
 			"WritingState, HandleExternalTriggers, HandleDataDrop", "TriangleSource, SimPulseSource, ErroringSource producers", "DataPublisher + LJH writers on real files"},
 		Stub: []string{"hardware (ScriptedSource fed by a paced hardware task)", "status, record and summary publishers (sinks)", "net/rpc + JSON codec + TCP (methods called directly by one client task)", "file-system failures (simrt fault FS behind the interposed os.* calls)", "full disk for one class of small files written on the request path (faulted runs: comment.txt, experiment-state file, channels.json, and the external-trigger / data-drop logs that STOP flushes; the file is created, its handle is /dev/full, every write or flush fails with ENOSPC)", "Lancero / Abaco / ROACH sources (mix requests only reach the generic refusal)"}})
@@ -194,16 +198,27 @@ type c11World struct {
 	lastKind                        string
 
 	fs          *simrt.FaultFS
-	reconfigure func(nchan int) error // configures the inactive main source for another number of channels
-	mapMaybe    bool                  // a TES map may be loaded in the map server
-	nmaps       int
-	faultClass  string
-	persist     bool // the failure stays: from its first occurrence on, every operation of the class fails
-	full        bool // the failure is a full disk for the class: the file is created, every write through its handle fails
-	fullNoted   int  // full-disk handles counted into fires so far
-	fires       int  // how often the injected failure has happened so far
-	nreq        int
-	nerr        int
+	reconfigure func(nchan int) error // configures the inactive main source (legal options drawn anew) for a number of channels
+
+	// configuration of the main source (zz_verif_c11cfg.go)
+	minBlock   time.Duration // shortest block period this run's virtual CPU cost allows
+	blockTime0 time.Duration // SimPulse: duration of one pulse of spNsamp samples
+	triHalf    int
+	spNsamp    int
+	lanRows    int
+	lanCols    int
+	cfgAuto    bool // the main source's configuration in force has ShouldAutoRestart set
+	cfgUnsure  bool // a configuration request of the mix may have left the main source unconfigured (Lancero remembers a refusal)
+	runAuto    bool // the run in progress (or the one that ended last) belongs to a source configured with ShouldAutoRestart
+	mapMaybe   bool // a TES map may be loaded in the map server
+	nmaps      int
+	faultClass string
+	persist    bool // the failure stays: from its first occurrence on, every operation of the class fails
+	full       bool // the failure is a full disk for the class: the file is created, every write through its handle fails
+	fullNoted  int  // full-disk handles counted into fires so far
+	fires      int  // how often the injected failure has happened so far
+	nreq       int
+	nerr       int
 }
 
 func c11Body(env *simrt.Env) {
@@ -258,7 +273,8 @@ func c11Body(env *simrt.Env) {
 	w := newPipeWorld(env, nchan, npre, nsamp, rate)
 	resetViper(env.Dir)
 	c := &c11World{env: env, w: w, sc: w.sc, kind: kind, rate: rate, nchanMain: nchan, nchan: nchan, nsamp: nsamp, npre: npre, lenKnown: true,
-		reqTask: -1, lastKind: "start", rawSeen: map[string]bool{}, dataDir: filepath.Join(env.Dir, "data")}
+		reqTask: -1, lastKind: "start", rawSeen: map[string]bool{}, dataDir: filepath.Join(env.Dir, "data"),
+		minBlock: minBlock, blockTime0: blockTime, triHalf: triHalf, spNsamp: spNsamp, lanRows: lanRows, lanCols: lanCols}
 	c.period = w.period
 	c.blkLen = blkLen
 	c.blockTime = blockTime
@@ -318,34 +334,24 @@ func c11Body(env *simrt.Env) {
 	simrt.SetFS(c.fs)
 
 	var ok bool
+	// The main source is configured through its configuration request, with the options the server reads
+	// later drawn over their legal ranges (zz_verif_c11cfg.go); so is every reconfiguration before a restart.
+	c.reconfigure = c.configureMain
 	switch kind {
 	case 0:
 		c.name, c.main = "scripted", &w.ss.AnySource
-		c.reconfigure = func(n int) error {
-			w.ss.nchan = n
-			return nil
-		}
 	case 1:
 		c.name, c.main = "TRIANGLESOURCE", &c.sc.triangle.AnySource
-		c.reconfigure = func(n int) error {
-			return c.sc.ConfigureTriangleSource(&TriangleSourceConfig{Nchan: n, SampleRate: rate, Min: 100, Max: RawType(100 + triHalf)}, &ok)
-		}
-		if err := c.reconfigure(nchan); err != nil {
-			simrt.Fail("harness.configure", "harness:configure", "%v", err)
-		}
 	case 3:
 		c.setupLancero(lanRows, lanCols)
 	default:
 		c.name, c.main = "SIMPULSESOURCE", &c.sc.simPulses.AnySource
-		c.reconfigure = func(n int) error {
-			return c.sc.ConfigureSimPulseSource(&SimPulseSourceConfig{Nchan: n, SampleRate: rate, Pedestal: 1000, Amplitudes: []float64{6000}, Nsamp: spNsamp}, &ok)
-		}
-		if err := c.reconfigure(nchan); err != nil {
-			simrt.Fail("harness.configure", "harness:configure", "%v", err)
-		}
+	}
+	if err := c.reconfigure(nchan); err != nil {
+		simrt.Fail("harness.configure", "harness:configure", "%v", err)
 	}
 	c.any = c.main
-	env.Op("control world source=%s nchan=%d nsamp=%d npre=%d block=%d+%d samples / %v fault=%s", c.name, nchan, nsamp, npre, c.blkLen, c.blkVar, c.blockTime, c.faultClass)
+	env.Op("control world source=%s nchan=%d nsamp=%d npre=%d block=%d+%d samples / %v fault=%s auto-restart=%v", c.name, nchan, nsamp, npre, c.blkLen, c.blkVar, c.blockTime, c.faultClass, c.cfgAuto)
 	if c.full {
 		env.Op("fault plan: the disk is full for %v from creation #%d of such a file on (%d creations, 0 = all later ones)", c.fs.FullMatch, c.fs.FullFrom, c.fs.FullCount)
 	}
@@ -566,6 +572,13 @@ func (c *c11World) state() int {
 }
 
 func (c *c11World) noteDown(self bool) {
+	if c.runAuto && c.up {
+		if self {
+			simrt.Hit("run-with-auto-restart-ended-by-itself")
+		} else {
+			simrt.Hit("run-with-auto-restart-ended-by-stop")
+		}
+	}
 	c.up = false
 	c.selfEnded = self
 	c.writing = c11WOff // a run that ends stops its writing (C10)
@@ -590,19 +603,23 @@ func (c *c11World) startMain() {
 	c.stopHardware()
 	var err error
 	if c.starts > 0 && c.reconfigure != nil && simrt.Draw(3) == 2 {
-		// a restart with another number of channels (the source is reconfigured while it is inactive)
-		n := 1 + simrt.Draw(4)
-		if err := c.reconfigure(n); err != nil {
-			simrt.Fail("harness.configure", "harness:configure", "reconfiguring the inactive %s source for %d channels: %v", c.name, n, err)
+		// a restart with another number of channels and other options (the source is reconfigured while it
+		// is inactive; the channel count of the Lancero source is its card's)
+		n, before := 1+simrt.Draw(4), c.nchanMain
+		if c.kind == 3 {
+			n = c.nchanMain
 		}
-		if n != c.nchanMain {
+		if err := c.reconfigure(n); err != nil {
+			simrt.Fail("C11.reply-kind", "reply:error-for-valid:configure-"+c.name, "a legal configuration of the inactive %s source (%d channels) was refused: %v", c.name, n, err)
+		}
+		if n != before {
 			simrt.Hit("restart-with-other-channel-count")
 			if c.rawPending() {
 				simrt.Hit("restart-with-other-channel-count-and-unfinished-raw-block")
 			}
 		}
-		c.nchanMain = n
 	}
+	c.ensureConfigured()
 	if c.kind == 0 {
 		c.w.sent, c.w.fed = 0, 0
 		err = c.w.startScripted()
@@ -613,12 +630,18 @@ func (c *c11World) startMain() {
 		c.sc.SendAllStatus(&dummy, &ok)
 		name := c.name
 		before := c.fs.FullFired
-		err = c.sc.Start(&name, &ok)
+		err = c.startWatched(&name, &ok)
 		if err != nil && c.fs.FullFired > before {
 			// Start could not write channels.json (full disk) and says so: no source is running then
 			c.noteFires()
 			c.env.Op("start %s refused: %v", c.name, err)
 			return
+		}
+		if err != nil {
+			// No source is running (Stop has returned, or the run ended by itself and the source reports that it
+			// is not running), the flag of the RPC layer was refreshed by a status request, the source has a
+			// legal configuration: the server has to start it.
+			simrt.Fail("C11.reply-kind", "reply:error-for-valid:Start", "Start of the inactive, configured %s source was refused: %v (%s; previous run of a source configured with ShouldAutoRestart: %v)", c.name, err, c.whyDown(), c.runAuto)
 		}
 	}
 	if err != nil {
@@ -633,7 +656,28 @@ func (c *c11World) startMain() {
 	}
 }
 
+// startWatched is the harness's own Start of the main source, under the same 20 s watchdog as every request.
+func (c *c11World) startWatched(name *string, ok *bool) error {
+	done := make(chan struct{})
+	go func() {
+		tm := time.NewTimer(20 * time.Second)
+		defer tm.Stop()
+		select {
+		case <-done:
+		case <-tm.C:
+			simrt.Note("C11.returns", "hang:Start:after-"+c.lastKind, "Start(%s) did not return within 20 s of simulated time (%s); tasks: %v", *name, c.whyDown(), simrt.AliveTaskInfo())
+		}
+	}()
+	err := c.sc.Start(name, ok)
+	close(done)
+	return err
+}
+
 func (c *c11World) noteStarted(any *AnySource, nchan int, selfEnding bool) {
+	c.runAuto = any.ShouldAutoRestart() // (what the server will read when this run ends)
+	if c.runAuto {
+		simrt.Hit("run-of-source-with-auto-restart-started")
+	}
 	c.any, c.nchan = any, nchan
 	c.up, c.everUp, c.termSent, c.endReq = true, true, selfEnding, 0
 	c.starts++
@@ -829,6 +873,9 @@ type c11Req struct {
 	queued      bool // goes through runLaterIfActive
 	isStart     bool // a WriteControl START: if refused, it must leave the writing state as it was
 	badIndex    bool // carries an out-of-range channel index
+	config      bool // a source configuration request (zz_verif_c11cfg.go)
+	mustSucceed bool // a legal configuration of a source that is idle: accepted whatever else is going on
+	expectIdle  int  // reply kind demanded when no source is running (configuration requests only)
 	do          func() error
 	onOK        func()
 	onErr       func()
@@ -923,6 +970,12 @@ func (c *c11World) call(r *c11Req) {
 	if st == c11Down && !c.everUp {
 		simrt.Hit("request-before-any-start")
 	}
+	if st == c11Down && c.everUp && c.runAuto && r.needsSource {
+		simrt.Hit("request-after-run-with-auto-restart-ended")
+	}
+	if r.config {
+		simrt.Hit("configuration-request:" + r.kind)
+	}
 	if r.badIndex && c.callEntered {
 		simrt.Hit("invalid-index-reached-handler")
 	}
@@ -937,6 +990,10 @@ func (c *c11World) call(r *c11Req) {
 		}
 	case c.overlap:
 		// the other client's Start or Stop is in flight: either order is a valid history
+	case r.mustSucceed && err != nil:
+		simrt.Fail("C11.reply-kind", "reply:error-for-valid:"+r.kind, "%s(%s) is a legal configuration of a source that is not running but was answered with the error %q", r.kind, r.desc, reply)
+	case st == c11Down && r.expectIdle == c11Err && err == nil:
+		simrt.Fail("C11.reply-kind", "reply:success-for-invalid:"+r.kind, "%s(%s) has invalid arguments but was answered with success", r.kind, r.desc)
 	case st == c11Down && r.needsSource && err == nil:
 		simrt.Fail("C11.reply-kind", "reply:success-without-source:"+r.kind, "%s(%s) answered success although no source is running (%s)", r.kind, r.desc, c.whyDown())
 	case healthy && r.expect == c11OK && err != nil:
